@@ -292,6 +292,11 @@ macro_rules! combining {
     };
 }
 
+combining!(combining_vec__or_1_0, 3, 2, 1, 0, 0, LogicalOp::Or);
+combining!(combining_vec__and_1_0, 3, 2, 1, 0, 0, LogicalOp::And);
+combining!(combining_vec__xor_1_0, 3, 2, 1, 0, 0, LogicalOp::Xor);
+combining!(combining_vec__or_0_1, 3, 2, 0, 1, 0, LogicalOp::Or);
+combining!(combining_vec__or_1_1, 3, 2, 1, 1, 0, LogicalOp::Or);
 combining!(combining_vec__or_2_1, 3, 2, 2, 1, 0, LogicalOp::Or);
 combining!(combining_vec__and_2_1, 3, 2, 2, 1, 0, LogicalOp::And);
 combining!(combining_vec__xor_2_1, 3, 2, 2, 1, 0, LogicalOp::Xor);
